@@ -2,7 +2,11 @@
   C10 — Fee pipeline: owed protocol fees reach the epoch, minus only the take rate.
 
   Theorems about `WW.Model.Collector.forwardFees` (collect → aggregate → take rate → transfer) and
-  its composition with the distributor's reply (`WW.Model.Feeflow.newEpoch`).  The router's output for
+  its composition with the distributor's reply (`WW.Model.Feeflow.newEpoch`).  The distribution asset is a
+  parameter (`cfg.dist`) of every collector theorem; on the joint machine it is STATE: the collector asks
+  the distributor for its current `distribution_asset` on every run (`Feeflow.ccfg` / `cview`), the owner
+  may switch it in mid-history (`Feeflow.Op.setDist`), and `epoch_total_eq` is stated per asset (the
+  rollover from the expiring epoch keeps the assets it was held in).  The router's output for
   every swap and the protocol fee that the aggregation swaps leave behind in the pairs are arbitrary
   parameters: the theorems hold for all of them, for any number of pools / vaults / assets, any pending
   amounts, any registry state.
@@ -160,18 +164,25 @@ theorem pending_after (cfg : Cfg) (s : St) (sender epochId : Nat) (router : Nat 
   subst ho
   exact ⟨rfl, rfl⟩
 
-/-- **epoch_total_eq** — for `NewEpoch` on the joint model: the amount transferred to the distributor
-    (the growth of its balance) equals the new epoch's total minus what was rolled over from the epoch
-    leaving the grace window, and the new epoch starts fully available. -/
+/-- **epoch_total_eq** — for `NewEpoch` on the joint model, PER ASSET and whatever the distribution asset
+    is at that moment (the owner may have switched it, `Feeflow.Op.setDist`): the collector runs its pipeline
+    towards the distributor's CURRENT distribution asset `s.d.dist` (`ccfg` / `cview`); the amount
+    transferred to the distributor (the growth of its balance — in the distribution asset only) equals the
+    new epoch's total minus what was rolled over from the epoch leaving the grace window, in every asset
+    (the rollover keeps the assets it was held in); the new epoch starts fully available; the DAO's cut is
+    paid in the distribution asset. -/
 theorem epoch_total_eq (cfg : Feeflow.Cfg) (s s' : Feeflow.St) (now : Nat) (router : Nat → Nat → Nat → Nat)
     (acc : Nat → Nat → Nat) (o : Out) (h : Feeflow.newEpoch cfg s now router acc = .ok (s', o)) :
     ∃ new rest, s'.d.epochs = new :: rest ∧
-      s'.d.bal = s.d.bal + Distributor.amt o.inflow ∧
-      Distributor.amt new.total =
-        Distributor.amt o.inflow + Distributor.amt ((s.d.epochs[s.d.grace - 1]?).bind (·.avail)) ∧
+      (∀ a, s'.d.bal a = s.d.bal a + Distributor.sel s.d.dist a (Distributor.amt o.inflow)) ∧
+      (∀ a, Distributor.amtOf a new.total =
+        Distributor.sel s.d.dist a (Distributor.amt o.inflow) +
+          Distributor.amtOf a (Distributor.availAt s.d.epochs (s.d.grace - 1))) ∧
       new.avail = new.total ∧
       o.base = o.take + Distributor.amt o.inflow ∧
-      s'.c = o.st := by
+      (∀ a, s'.daoBal a = s.daoBal a + Distributor.sel s.d.dist a o.take) ∧
+      s'.c = o.st ∧ s'.d.dist = s.d.dist ∧
+      forwardFees (Feeflow.ccfg cfg s) (Feeflow.cview s) cfg.c.distributor new.id router acc = .ok o := by
   unfold Feeflow.newEpoch at h
   cases hn : Distributor.nextEpoch cfg.d s.d now with
   | err => rw [hn] at h; simp at h
@@ -179,7 +190,7 @@ theorem epoch_total_eq (cfg : Feeflow.Cfg) (s s' : Feeflow.St) (now : Nat) (rout
   | ok pr =>
     obtain ⟨id, start⟩ := pr
     rw [hn] at h; simp only at h
-    cases hf : forwardFees cfg.c s.c cfg.c.distributor id router acc with
+    cases hf : forwardFees (Feeflow.ccfg cfg s) (Feeflow.cview s) cfg.c.distributor id router acc with
     | err => rw [hf] at h; simp at h
     | panic => rw [hf] at h; simp at h
     | ok o1 =>
@@ -193,9 +204,32 @@ theorem epoch_total_eq (cfg : Feeflow.Cfg) (s s' : Feeflow.St) (now : Nat) (rout
         subst h1; subst h2
         obtain ⟨_, tot, hagg, hd'⟩ := Distributor.receiveEpoch_spec hr
         subst hd'
-        refine ⟨_, _, rfl, rfl, ?_, rfl, (pipeline_conservation _ _ _ _ _ _ _ hf).2.1, rfl⟩
-        rw [← Distributor.takeOut_rolled]
-        exact Distributor.aggOpt_amt hagg
+        obtain ⟨hamt, _⟩ := Distributor.agg_spec _ _ _ hagg
+        refine ⟨_, _, rfl, fun a => Distributor.addAt_apply _ _ _ _, fun a => ?_, rfl,
+          (pipeline_conservation _ _ _ _ _ _ _ hf).2.1, fun a => ?_, rfl, rfl, hf⟩
+        · rw [← Distributor.takeOut_rolled, ← Distributor.amtOf_inflowLedger]; exact hamt a
+        · simp only [Collector.add, Distributor.sel]
+          by_cases ha : a = s.d.dist
+          · subst ha; simp
+          · rw [if_neg ha, if_neg (fun e => ha e.symm)]; omega
+
+/-- the collector's pipeline always runs towards the distributor's CURRENT distribution asset: after the
+    owner switched it (`setDist`), the very next `NewEpoch` aggregates into, takes the DAO's cut from and
+    forwards the new asset; the switch itself moves nothing -/
+theorem switch_redirects_pipeline (cfg : Feeflow.Cfg) (s s' : Feeflow.St) (sender a : Nat)
+    (h : Feeflow.step cfg s (.setDist sender a) = .ok s') :
+    sender = cfg.d.owner ∧ (Feeflow.ccfg cfg s').dist = a ∧ s'.d.epochs = s.d.epochs ∧ s'.d.bal = s.d.bal ∧
+    s'.c = s.c ∧ s'.daoBal = s.daoBal ∧ s'.ub = s.ub ∧ s'.rts = s.rts := by
+  simp only [Feeflow.step] at h
+  cases hg : Distributor.setDist cfg.d s.d sender a with
+  | err => rw [hg] at h; cases h
+  | panic => rw [hg] at h; cases h
+  | ok d' =>
+    rw [hg] at h; simp only at h
+    injection h with h; subst h
+    obtain ⟨hd, ho⟩ := Distributor.setDist_spec hg
+    subst hd
+    exact ⟨ho, rfl, rfl, rfl, rfl, rfl, rfl, rfl⟩
 
 /-! ### `CollectFees` / `AggregateFees` sent to the collector directly, in mid-history
 
@@ -275,9 +309,10 @@ theorem direct_aggregate_rejects (cfg : Cfg) (s : St) (sender k : Nat) (router :
 /-- on the joint machine the direct ops change nothing of the distributor, the bonders or the lair view -/
 theorem direct_ops_leave_distributor (cfg : Feeflow.Cfg) (s s' : Feeflow.St) (sender : Nat) (f : FeesFor)
     (router : Nat → Nat → Nat → Nat) (acc : Nat → Nat → Nat) :
-    (Feeflow.step cfg s (.collect sender f) = .ok s' → s'.d = s.d ∧ s'.ub = s.ub ∧ s'.view = s.view ∧ s'.c.dao = s.c.dao) ∧
+    (Feeflow.step cfg s (.collect sender f) = .ok s' →
+      s'.d = s.d ∧ s'.ub = s.ub ∧ s'.view = s.view ∧ s'.c.dao = s.c.dao ∧ s'.daoBal = s.daoBal) ∧
     (Feeflow.step cfg s (.aggregate sender f router acc) = .ok s' →
-      s'.d = s.d ∧ s'.ub = s.ub ∧ s'.view = s.view ∧ s'.c.dao = s.c.dao) := by
+      s'.d = s.d ∧ s'.ub = s.ub ∧ s'.view = s.view ∧ s'.c.dao = s.c.dao ∧ s'.daoBal = s.daoBal) := by
   constructor
   · intro h
     simp only [Feeflow.step] at h
@@ -286,16 +321,16 @@ theorem direct_ops_leave_distributor (cfg : Feeflow.Cfg) (s s' : Feeflow.St) (se
     | panic => rw [hc] at h; cases h
     | ok c' =>
       rw [hc] at h; simp only at h; injection h with h; subst h
-      exact ⟨rfl, rfl, rfl, (collectFees_rest hc).1⟩
+      exact ⟨rfl, rfl, rfl, (collectFees_rest hc).1, rfl⟩
   · intro h
     simp only [Feeflow.step] at h
-    cases hc : aggregateFees cfg.c s.c sender f router acc with
+    cases hc : aggregateFees (Feeflow.ccfg cfg s) (Feeflow.cview s) sender f router acc with
     | err => rw [hc] at h; cases h
     | panic => rw [hc] at h; cases h
     | ok pr =>
       obtain ⟨c', inn, sw⟩ := pr
       rw [hc] at h; simp only at h; injection h with h; subst h
-      exact ⟨rfl, rfl, rfl, (direct_aggregate_only_converts _ _ _ _ _ _ _ _ _ hc).2.2.2.2.2.1⟩
+      exact ⟨rfl, rfl, rfl, (direct_aggregate_only_converts _ _ _ _ _ _ _ _ _ hc).2.2.2.2.2.1, rfl⟩
 
 /-! ### factory pages -/
 
@@ -362,6 +397,18 @@ example : out0.map (fun o => (o.st.bal 0, o.st.bal 1, o.st.bal 2, o.st.dao)) = s
 example : out0.map (fun o => o.st.trh) = some [(5, 344)] := by decide
 example : out0.map (fun o => (o.st.pools.map (fun p => (p.pa, p.pb)), o.st.vaults.map (·.pend))) =
     some ([(0, 1000), (0, 0)], [0, 0]) := by decide
+
+/-- the same state after the owner switched the distribution asset to uusdc (1), with a route uwhale → uusdc:
+    the pipeline now runs TOWARDS uusdc — the collector's uwhale (40 + 7 + 1001 = 1048 > 1000) is swapped
+    in the vault pass for 1000 uusdc, the 2500 uusdc of the vault are the distribution asset itself:
+    B = 3500, DAO 350, distributor 3150 — all in uusdc; uatom (no route) stays. -/
+def out1 : Option Out :=
+  (forwardFees { cfg0 with dist := 1 } { st0 with routes := fun i => if i = 2 then [(2, 1)] else [] } 2000 5
+    (fun _ _ _ => 1000) (fun _ _ => 0)).toOption
+
+example : out1.map (fun o => (o.take, o.inflow, o.base, o.swappedIn)) = some (350, some 3150, 3500, 1000) := by decide
+example : out1.map (fun o => o.swaps) = some [(0, 2, 1048)] := by decide
+example : out1.map (fun o => (o.st.bal 0, o.st.bal 1, o.st.bal 2)) = some (5000, 0, 0) := by decide
 
 /-- a stranger is rejected; a route through a pair with swaps disabled fails the whole operation -/
 example : (forwardFees cfg0 st0 1002 5 (fun _ _ _ => 2400) (fun _ _ => 0)).isOk = false := by decide
